@@ -114,18 +114,31 @@ func main() {
 	cases = append(cases, selectVisCases(e, nfix)...)
 	ntype := e.Pick(1, 4)
 	for i := 0; i < ntype; i++ {
-		cases = append(cases, genTypeCases(newTypeFixture(e, i))...)
+		tf := newTypeFixture(e, i)
+		tf.Quick = e.Quick()
+		cases = append(cases, genTypeCases(tf)...)
 	}
 	for i := 0; i < e.Pick(1, 3); i++ {
-		cases = append(cases, genTypeCases(newShortTypeFixture(e, i))...)
+		stf := newShortTypeFixture(e, i)
+		stf.Quick = e.Quick()
+		cases = append(cases, genTypeCases(stf)...)
 	}
-	// interface hierarchies: quick = every (type, value) pair on 3 seeded boundary forms,
+	// interface hierarchies: quick = every (type, value) pair on 2 seeded boundary forms,
 	// thorough = 2 fixtures on every boundary form
 	for i := 0; i < e.Pick(1, 2); i++ {
-		cases = append(cases, genHierTypeCases(e, newHierTypeFixture(e, i), e.Pick(3, 0))...)
+		cases = append(cases, genHierTypeCases(e, newHierTypeFixture(e, i), e.Pick(2, 0))...)
 	}
 	for i := 0; i < e.Pick(1, 3); i++ {
 		cases = append(cases, genSharedCases(newSharedFixture(e, i))...)
+	}
+	// shadowed member names: quick = one seeded (code class, object class) combination per stratum and
+	// (modifier pattern, access form), thorough = all of them in 2 fixtures
+	for i := 0; i < e.Pick(1, 2); i++ {
+		cases = append(cases, genShadowCases(e, newShadowFixture(e, i), e.Pick(1, 0))...)
+	}
+	// call chains ending in a function / closure written outside any class
+	for i := 0; i < e.Pick(1, 2); i++ {
+		cases = append(cases, genChainCases(e, newChainFixture(e, i))...)
 	}
 	nabs := e.Pick(1, 4)
 	for i := 0; i < nabs; i++ {
